@@ -128,6 +128,14 @@ class PolicyScenario(cmdscn.CmdScenario):
                 tag = 'task-completed-while-it-waited-for-its-retry'
                 if tag not in h:
                     h.append(tag)
+            if was == 'DELAYED' and t['state'] in ('ERROR', 'SUCCESS') \
+                    and 'wait-before' in (p['state_info'] or ''):
+                # the timeout fails the task while it still waits for its
+                # start: the pending _continue_task will resurrect it
+                h = w.extra.setdefault('hist', [])
+                tag = 'task-completed-while-it-waited-before-its-start'
+                if tag not in h:
+                    h.append(tag)
             if was == 'DELAYED' and t['state'] != 'DELAYED':
                 since = w.extra['delayed'].pop(t['id'], None)
                 d = self._delay_of(t['name'], p['state_info'])
@@ -299,6 +307,41 @@ def programs(tier):
             P.append(('sub_%s/%s' % (pname, tag), prog,
                       {'s1': r, 'b': ['S'], 'c': ['S']},
                       {'clock_devs': devs, 'compare_ctx': False}))
+    # every pair of policies on one task (a policy that moves the task out
+    # of RUNNING must not make the engine forget the others)
+    import itertools as _it
+    POL = {
+        'wb': {'wait-before': 1}, 'wa': {'wait-after': 1},
+        'to': {'timeout': 2}, 'rt': {'retry': {'count': 1, 'delay': 1}},
+        'fo': {'fail-on': ['eq', 'v', 1]}, 'pb': {'pause-before': True},
+    }
+    for p1, p2 in _it.combinations(sorted(POL), 2):
+        kw = {}
+        kw.update(POL[p1])
+        kw.update(POL[p2])
+        kw.update({'on-success': ['b'], 'on-error': ['c']})
+        uses_to = 'to' in (p1, p2)
+        if uses_to:
+            kw['action'] = 'async'
+        prog = direct({'a': T(**kw), 'b': T(), 'c': T()}, input={'v': 0})
+        extra = {'clock_devs': 1 if (uses_to or 'wb' in (p1, p2) or
+                                     'wa' in (p1, p2)) else 0}
+        if 'pb' in (p1, p2):
+            extra.update({'menu': ['resume'], 'max_cmds': 1})
+        outs = [('S', ['S']), ('E', ['E'])]
+        if 'rt' in (p1, p2):
+            outs = [('ES', ['E', 'S']), ('EE', ['E', 'E'])]
+        if uses_to and 'rt' not in (p1, p2):
+            outs.append(('N', ['N']))
+        if uses_to and 'rt' in (p1, p2):
+            # (the timeout covers the first attempt only: a later attempt
+            # that never answers is outside what the policy defines)
+            outs.append(('NS', ['N', 'S']))
+        for tag, seq in outs:
+            if quick and tag in ('E', 'EE') and not uses_to:
+                continue
+            P.append(('pair_%s_%s/%s' % (p1, p2, tag), prog,
+                      {'a': seq, 'b': ['S'], 'c': ['S']}, dict(extra)))
     # pause-before, resumed by the operator
     prog = direct({'a': T(**{'on-success': ['b']}),
                    'b': T(**{'pause-before': True, 'on-success': ['c']}),
